@@ -405,6 +405,9 @@ func c12Explore(sc *c12Scenario, seed uint64, pairs int, r *kit.Rng) (out RunOut
 	// sampled fault pairs: the second on an EndEdit that still runs after the first
 	for p := 0; p < pairs && n > base.start; p++ {
 		k1 := base.start + r.Intn(n-base.start)
+		if e := base.ss.Events[k1]; e.Call == "Choose" && e.Side == "T" {
+			continue // the documented fall-through (known finding), nothing new to learn from pairing it
+		}
 		kind := c12Kinds(base.ss.Events[k1])
 		f1 := simnode.Fault{At: k1, Kind: kind[r.Intn(len(kind))]}
 		ex1 := c12Run(env, sc, []simnode.Fault{f1})
